@@ -39,6 +39,7 @@ type Program struct {
 	// distinct final queries answered (key -> result)
 	finalMu sync.Mutex
 	finals  map[string]smt.Result
+	branchQ, branchUnsat int
 }
 
 func (p *Program) cacheGet(k string) (smt.Result, bool) {
@@ -285,6 +286,7 @@ func (ex *Exec) interpretInit(init *ssa.Function) {
 // RunObligation explores all paths of a harness.
 func (p *Program) RunObligation(ob *Obligation, tier string) *ObResult {
 	ob.tierRun = tier
+	smt.Distribute = ob.Param("expand", 0) == 1
 	t0 := time.Now()
 	r := &ObResult{Ob: ob, Ends: map[string]int{}, EndSamples: map[string][]string{}, Reached: map[string]bool{},
 		Funcs: map[string]bool{}, Stubs: map[string]bool{}, Asserts: map[string]int{}}
@@ -409,4 +411,20 @@ func ReadOverlay(harnessDir, repo string) (map[string][]byte, map[string]string,
 		return nil
 	})
 	return ov, files, err
+}
+
+func (p *Program) noteBranch(r smt.Result) {
+	p.finalMu.Lock()
+	p.branchQ++
+	if r == smt.Unsat {
+		p.branchUnsat++
+	}
+	p.finalMu.Unlock()
+}
+
+// BranchQueries returns the number of distinct branch-feasibility queries and how many were unsat.
+func (p *Program) BranchQueries() (int, int) {
+	p.finalMu.Lock()
+	defer p.finalMu.Unlock()
+	return p.branchQ, p.branchUnsat
 }
